@@ -2,7 +2,7 @@
 
      core/symbols/symbols.py      Symbol (45-61), IndexedSymbol (68-95), Function (101-133), next_name (189),
                                   _process_subscript_and_names (204-212), clone_as_symbol (215-233),
-                                  clone_as_function (236-257), clone_as_indexed (260-277),
+                                  clone_as_function (236-258), clone_as_indexed (260-277),
                                   SymbolPrinter (150-186) / docs/printer_code.py on atoms
      core/symbols/quantities.py   Quantity.__new__/__init__ (19-53), _sympystr (73-92)
      core/coordinate_systems/coordinate_systems.py   CoordinateSystem.__init__ (54), coordinates_transform (112),
@@ -163,9 +163,9 @@ Definition exec (o : sop) (st : store) : state * option obj :=
       match get_src st src with
       | None => (s, None)
       | Some x =>
-          (* NOTE: unlike the other two helpers the source's assumptions are not consulted *)
+          let a' := assum_or a (oassum x) in
           let '(c, l) := with_subscript (str_or display (odisplay x)) (str_or latex (olatex x)) sub in
-          let '(s', y) := new_function s (Some c) (odim x) (Some l) a in (s', Some y)
+          let '(s', y) := new_function s (Some c) (odim x) (Some l) a' in (s', Some y)
       end
   | CloneIndexed src display latex a =>
       match get_src st src with
